@@ -17,6 +17,18 @@ Theorem C07_preserves : forall l s r t,
     /\ wf_triple (Some l') (Some s') (Some r') = true.
 Proof. exact (maximize_preserves the_tables data_full_extend data_wf_ints). Qed.
 
+(* the complete case split in one statement: either unchanged, or all three present afterwards with every given
+   subtag kept AND the identifier was not already full (so "changed" is never reported for a full identifier) *)
+Theorem C07_char : forall l s r,
+  wf_triple l s r = true ->
+  maximize the_tables l s r = Ok None \/
+  exists l' s' r', maximize the_tables l s r = Ok (Some (Some l', Some s', Some r'))
+     /\ keeps l (Some l') /\ keeps s (Some s') /\ keeps r (Some r')
+     /\ (is_some l && is_some s && is_some r = false)
+     /\ wf_triple (Some l') (Some s') (Some r') = true.
+Proof. exact (maximize_char the_tables data_full_extend data_wf_ints). Qed.
+Print Assumptions C07_char.
+
 (* maximizing an already maximized identifier changes nothing *)
 Theorem C07_idem : forall l s r l' s' r',
   maximize the_tables l s r = Ok (Some (Some l', Some s', Some r')) ->
